@@ -272,7 +272,7 @@ int main(int argc, char** argv)
     "file based save/load. Non-trivial: every distinct implementation state reached by >= 1 operation; every file case with >= 1 registered object.";
   spec.bounds_quick = "slot kind triples {DV,DV,CSR},{CSR,CSR,DV},{BCSR,DV,BCSR},{Blob,Blob,DV},{DV,CSR,Blob}; names {a,b,ab}; 3 content variants per slot (different serialised sizes, incl. length 0, "
     "entry-free, empty rows); alphabet add/remove/mutate/save/clear_input/load/restore(add|noadd); depth <= 5; file cases: all 4^3 assignments per triple";
-  spec.bounds_thorough = "as quick with depth <= 6";
+  spec.bounds_thorough = "as quick with depth <= 7";
   spec.assumptions = {
     "reference model = std::map<name, (kind, content fingerprint)> for stream and loaded input, std::map<name, slot> for the registration; fingerprints are read from the raw arrays",
     "not generated (asserted preconditions of the API): add of a registered name, remove of an unknown name, load while input is loaded or before any save (loading a saved checkpoint without objects is generated), restore without loaded input / "
@@ -282,7 +282,7 @@ int main(int argc, char** argv)
 
   return verif::run(spec, argc, argv, [&](verif::Ctx& c) {
     const int kinds[5][3] = {{K_DV, K_DV, K_CSR}, {K_CSR, K_CSR, K_DV}, {K_BCSR, K_DV, K_BCSR}, {K_BLOB, K_BLOB, K_DV}, {K_DV, K_CSR, K_BLOB}};
-    const size_t depth = c.thorough ? 6 : 5;
+    const size_t depth = c.thorough ? 7 : 5;
 
     // ---- probe: empty checkpoint
     const int hz_empty = probe([]{
